@@ -40,7 +40,7 @@ def Core.cost (w : Weights) : Core → Nat
   | .method c _ name _ => c.cost w + w.call name.name
   | .await c _ => c.cost w + w.await
   | .named c _ _ => c.cost w
-  | .unnamed c _ _ => c.cost w
+  | .unnamed c _ _ _ => c.cost w
   | .index c _ _ => c.cost w + w.index
 
 def VExpr.cost (w : Weights) (v : VExpr) : Nat := v.core.cost w
